@@ -568,7 +568,7 @@ double-conversion behind kenlm's `ParseNumber`): it never consumes more than it 
 result depends only on the bytes before the first space, and the empty string is an error. -/
 structure GrammarOK (P : Grammar) : Prop where
   count_le : ∀ s v c, P s = some (v, c) → c ≤ s.length
-  prefix_det : ∀ tok sp junk, (∀ b ∈ tok, isSpace b = false) → isSpace sp = true →
+  prefix_det : ∀ tok sp junk, tok ≠ [] → (∀ b ∈ tok, isSpace b = false) → isSpace sp = true →
     P (tok ++ sp :: junk) = P tok
   empty : P [] = none
 
@@ -696,7 +696,23 @@ theorem numLoop_spec {env : Env} (hfix : env.cfg.fixH = true) (P : Grammar) (hP 
         · have hlt : i < j := by omega
           constructor
           · rw [take_split_at st.visible hlt (by omega)]
-            exact hP.prefix_det _ _ _ htokns hi2
+            refine hP.prefix_det _ _ _ ?_ htokns hi2
+            -- the token is not empty: `position_` is at a non-space (after SkipSpaces)
+            intro hempty
+            have hi0 : i = 0 := by
+              have := congrArg List.length hempty
+              simp only [List.length_take, List.length_nil] at this
+              omega
+            subst hi0
+            cases hvis : st.visible with
+            | nil => rw [hvis] at hjlt; simp at hjlt
+            | cons c t =>
+              obtain ⟨r, hr⟩ := h.rest_cons hvis
+              have := hhead c r hr
+              rw [hvis] at hi2
+              simp at hi2
+              rw [this] at hi2
+              exact absurd hi2 (by decide)
           · unfold firstToken
             rw [idxOf_some_takeWhile (idxOf_take_of_lt hi hlt), List.take_take, Nat.min_eq_left (by omega)]
       unfold applyParse
